@@ -219,10 +219,11 @@ impl HalfConnection {
             let rtt_s = self.send_rate_comp.rtt_s();
 
             let delta_time = (now - time_last_flushed).as_secs_f64();
-            let new_bytes = (send_rate * delta_time).round() as isize;
+            let new_bytes = (send_rate * delta_time).floor() as isize;
             let alloc_max = (send_rate * rtt_s.unwrap_or(0.0)).round() as isize;
 
-            self.flush_alloc = self.flush_alloc.saturating_add(new_bytes).min(alloc_max);
+            let new_alloc = self.flush_alloc.saturating_add(new_bytes);
+            self.flush_alloc = new_alloc.min(alloc_max);
 
             //println!("dt: {}s, rtt: {:?}s, rate: {}B/s, new: {}B, max: {}B, val: {}B",
             //       delta_time, rtt_s, send_rate, new_bytes, alloc_max, self.flush_alloc);
@@ -231,6 +232,16 @@ impl HalfConnection {
                 // Less than a byte has been earned since the allocation was last filled. Keep
                 // measuring from that point, otherwise a low send rate stepped at short intervals
                 // (e.g. the minimum rate of 23 B/s at 50 steps per second) never earns anything.
+                return;
+            }
+
+            if new_alloc <= alloc_max {
+                // Only the time which has been converted into whole bytes is used up, and the rest
+                // is carried over to the next fill. Rounding each interval on its own instead
+                // favours rates whose per-step share rounds up (1600 B/s stepped every millisecond
+                // earned 2000 B/s) and penalizes the others.
+                let used_time = time::Duration::from_secs_f64(new_bytes as f64 / send_rate);
+                self.time_last_flushed = Some(time_last_flushed + used_time);
                 return;
             }
         }
